@@ -58,6 +58,15 @@ def table_str(zone):
                                " ".join(str(o) for o, _, _ in tda)), trs
 
 
+def spaced(tab):
+    trs_, tys_, tda_ = tab
+    offs = [t[0] for t in tda_]
+    if not offs:
+        return True
+    d = max(offs) - min(offs)
+    return all(d < trs_[i + 1] - trs_[i] for i in range(len(trs_) - 1))
+
+
 def run(ctx):
     exe = build(ctx)
     rng = ctx.rng
@@ -113,6 +122,14 @@ def run(ctx):
             items.append(("o", inst_of_epoch(u), u, w, int(gmtoff)))
             if rng.random() < 0.1:                            # arbitrary wall clock (may not exist / be ambiguous)
                 items.append(("u", inst_of_epoch(u), None, None, None))
+        # wall clocks in the hours the clocks skipped or went through twice (RFC 5545 3.3.5 says which instant they mean)
+        trs_, tys_, tda_ = ztab[z]
+        edge = [k for k in range(1, len(trs_)) if LO + 90000 < trs_[k] < HI - 90000 and tda_[tys_[k]][0] != tda_[tys_[k - 1]][0]]
+        for k in rng.sample(edge, min(len(edge), 12)):
+            ob, oa = tda_[tys_[k - 1]][0], tda_[tys_[k]][0]
+            lo_, hi_ = sorted((trs_[k] + ob, trs_[k] + oa))
+            for wn in {lo_, hi_ - 1, (lo_ + hi_) // 2, rng.randint(lo_, hi_ - 1)}:
+                items.append(("u", inst_of_epoch(wn), "edge", wn, None))
         rng.shuffle(items)
         for k in range(0, len(items), 100000):        # one line per zone: a zone object's cache lives as long as the process
             chunk = items[k:k + 100000]
@@ -134,6 +151,7 @@ def run(ctx):
     fails = []
     nchk = 0
     nskip = 0
+    nedge = 0
     for i in range(0, len(meta2), 2):
         kind, z, chunk = meta2[i]
         got = out2[i].split() if i < len(out2) else []
@@ -145,6 +163,28 @@ def run(ctx):
                 m = mk[mki] if mki < len(mk) else ""
                 mki += 1
             if c[2] is None:
+                continue
+            if c[2] == "edge":
+                # a wall clock the zone has twice means its first occurrence, one it has not got is read with the offset from
+                # before the gap (what Python's zoneinfo does with fold=0, too)
+                wn = c[3]
+                pre = sorted(preimages(ztab[z], wn))
+                trs_, tys_, tda_ = ztab[z]
+                if pre:
+                    want_u = pre[0]
+                else:
+                    import bisect
+                    cand = [k for k in range(1, len(trs_)) if trs_[k] + tda_[tys_[k - 1]][0] <= wn < trs_[k] + tda_[tys_[k]][0]]
+                    if not cand:
+                        continue
+                    want_u = wn - tda_[tys_[cand[0] - 1]][0]
+                nchk += 1
+                nedge += 1
+                want = hex16(*inst_of_epoch(want_u))
+                if g != want:
+                    fails.append((ops2[i], j, "%s: local %s %s: RFC 5545 3.3.5 makes it UTC %s, echse says %s"
+                                  % (z, c[1][:6], "exists twice" if len(pre) > 1 else "does not exist" if not pre else "exists once",
+                                     inst_of_epoch(want_u)[:6], unhex16(g)[:6] if len(g) == 16 else g)))
                 continue
             nchk += 1
             if c[0] == "l":
@@ -256,6 +296,9 @@ def run(ctx):
                   "non-trivial = conversions judged by the oracle (ambiguous wall-clock times are skipped)" % per_zone,
         "samples": [o[:60] + " … # " + o.split("#")[1][:100] for o in seq_ops[:3]],
         "zones": len(zones), "ambiguous_skipped": nskip,
+        # the decidable side condition of utc_of_local_first_spaced / utc_of_local_gap (Lemmas/Tz8.lean `Spaced`): consecutive
+        # transitions farther apart than any two offsets of the zone differ; the oracle does not depend on it
+        "zones_meeting_Spaced": sum(1 for z_ in zones if z_ in ztab and spaced(ztab[z_])), "repeated_or_skipped_wall_clocks_judged_by_rfc": nedge,
         "harness_status": [st1, st2],
         "impl_vs_spec_failures": len(fails),
         "impl_vs_model_differences": len(corr),
